@@ -27,7 +27,10 @@ RULE = (
     "un-whitening on the sub-matrix; get_template_channels / get_template_waveforms / "
     "get_cluster_channels agree with the record. Non-trivial: more channels than the "
     "neighbourhood with >=2 shanks, or a threshold strictly inside (0,1) that removes a channel, "
-    "or a sparse row with both a -1 and an all-zero column.")
+    "or a sparse row with both a -1 and an all-zero column."
+    ' Later additions: waveform units 1e-4..1e-9 and 300, faint stored channels, templates exactl'
+    'y zero outside a footprint (threshold-0 lists exact), configuration on a subclass, integer w'
+    'hitening matrices, probes of 64-400 channels.')
 ASSUMPTIONS = ['float32 rounding of the un-whitened template: rtol 1e-5 and decision bands']
 
 
